@@ -32,11 +32,11 @@ TAU = float(4 * EPS)
 
 
 def prebuild_targets(tier):
-    return HARNESS.targets(C.groups_for(tier))
+    return HARNESS.targets(C.groups_for(tier, bundles=False))
 
 
 def run(rep, tier, seed):
-    groups = C.groups_for(tier)
+    groups = C.groups_for(tier, bundles=False)
     errs = HARNESS.build(groups)
     rep.trust("REAL: machine arithmetic treated as mathematical",
               "L-ODE (textbook): M'(s) = M(s) A, M(0+) = I has the unique solution expm(s A)",
@@ -44,6 +44,7 @@ def run(rep, tier, seed):
               "tracer vsym/sym.h; engine/alg.py (sympy rings/groebner); z3 (SAFE, feasibility)")
     rep.assume("NOT decided: uniform floating-point accuracy (cancellation in 1-cos(theta) just above the switch-over), overflow of double for huge inputs",
                "hat is the documented basis expansion (proved under C07)")
+    rep.assume("Bundles: every Bundle operation / Jacobian is the block-diagonal of its elements' (proved per layout under C11), so the element-group results proved here carry over")
     for g in groups:
         if g in errs:
             rep.fail("C02/%s/instantiates" % g, "BUILD", "g++", {"compiler_output": errs[g].output[-3000:]},
@@ -103,6 +104,8 @@ def check_group(rep, g, seed):
         if c is generic:
             continue
         rep.progress("%s near_generic %s" % (g, c.path.script))
+        c.vec("out")
+        c.check_safe()      # before the generic branch is attached (its denominators are not this path's)
         gen_view = c.alg.attach(generic.path)
         try:
             gout = gen_view.out("out").reshape(-1)
@@ -110,7 +113,6 @@ def check_group(rep, g, seed):
             rep.undecide("C02/%s/exp[%s]/near_generic" % (g, c.path.script), "TAYLOR", "nf", str(e))
             continue
         taylor.with_taylor(c, TAU, lambda c=c, gout=gout: c.eq("near_generic", c.spec.T(c.vec("out")), c.spec.T(gout), "TAYLOR"))
-        c.check_safe()
 
 
 def to_identity(rep, c, M):
